@@ -4,7 +4,7 @@ v=json.load(open('/verif/build/last_violations_%s.json'%prop))
 g=collections.OrderedDict()
 for x in v:
     s=x['sig']
-    k=(s['kind'],s.get('crash_kind'),s.get('crash_site'))
+    k=(s['kind'],s.get('syntax'),s.get('crash_kind'),s.get('crash_site'),tuple(f for f in s.get('features',[]) if not f.startswith(('k:','top'))))
     g.setdefault(k,[]).append(x)
 for k,xs in g.items():
     syn=collections.Counter(x['sig'].get('syntax') for x in xs)
